@@ -257,23 +257,17 @@ Definition walker_returns (walk : list stmt -> outcome walk_out) : Prop := foral
 Definition walker_contract (walk : list stmt -> outcome walk_out) : Prop :=
   forall body w, walk body = Ok w -> walk_out_ok body w = true.
 
-(* totality: with a walker that returns, the front end returns for EVERY byte string; the only panic left
-   is the converter's own (a declaration with a list request: the recorded finding) *)
+(* totality: with a walker that returns, the front end returns for EVERY byte string and both parser modes.  The
+   converter itself cannot panic (file_never_panics: since fix 985f10a a list request is an error) *)
 Theorem front_end_total : forall walk ff input, walker_returns walk ->
-  match front_end walk ff input with
-  | Ok _ => True
-  | Panic _ => exists body t lf, walk body = Ok (WalkFile t lf) /\ file_panics (map erase lf) = true
-  | _ => False
-  end.
+  exists out, front_end walk ff input = Ok out.
 Proof.
   intros walk ff input Hret. unfold front_end, parse_file.
   destruct (parse_runes_total ff (utf8_decode input)) as [p Hp]. rewrite Hp.
-  destruct (pdiags p) as [|d ds] eqn:Ed; [|exact I].
+  destruct (pdiags p) as [|d ds] eqn:Ed; [|eexists; reflexivity].
   destruct (parse_runes_tree_or_diags ff _ p Hp) as [[[body Hb] _]|Hne]; [|rewrite Ed in Hne; contradiction].
-  rewrite Hb. destruct (Hret body) as [w Hw]. rewrite Hw. destruct w as [es|t lf]; [exact I|].
-  destruct (file_panics (map erase lf)) eqn:Ep.
-  - exists body, t, lf. split; [exact Hw|exact Ep].
-  - destruct (conv_errors t lf); exact I.
+  rewrite Hb. destruct (Hret body) as [w Hw]. rewrite Hw. destruct w as [es|t lf]; [eexists; reflexivity|].
+  rewrite file_never_panics. destruct (conv_errors t lf); eexists; reflexivity.
 Qed.
 
 Lemma file_panics_verdict ds : file_panics ds = true <-> file_verdict ds = VPanic.
@@ -281,17 +275,6 @@ Proof.
   unfold file_verdict. destruct (file_panics ds); [split; reflexivity|].
   split; [discriminate|]. destruct (Nat.ltb 0 (file_nerr ds)); [discriminate|].
   destruct (links_d (file_state FMain ds) && links_d (file_state FService ds) && links_d (file_state FTopic ds)); discriminate.
-Qed.
-
-(* ... and without list requests there is none *)
-Theorem front_end_never_panics : forall walk ff input, walker_returns walk ->
-  (forall body t lf, walk body = Ok (WalkFile t lf) -> no_list_requests (map erase lf)) ->
-  exists out, front_end walk ff input = Ok out.
-Proof.
-  intros walk ff input Hret Hnl. pose proof (front_end_total walk ff input Hret) as H.
-  destruct (front_end walk ff input) as [out|c|s|]; try contradiction; [exists out; reflexivity|].
-  destruct H as (body & t & lf & Hw & Hp). apply file_panics_verdict in Hp.
-  destruct (file_total_links (map erase lf) (Hnl body t lf Hw)) as [Hnp _]. contradiction.
 Qed.
 
 (* positions: every error of the parse, walk and convert stages carries a position whose two ends are
@@ -338,7 +321,7 @@ Qed.
 (* "descriptors or errors": when no error is reported the converter built every output file and, without
    list requests, each of them links *)
 Theorem front_end_descriptors : forall walk ff input v lf,
-  front_end walk ff input = Ok (FEConverted v lf) -> no_list_requests (map erase lf) ->
+  front_end walk ff input = Ok (FEConverted v lf) ->
   v = VOk /\ file_nerr (map erase lf) = 0.
 Proof.
   intros walk ff input v lf. unfold front_end.
@@ -347,10 +330,10 @@ Proof.
   destruct (walk body) as [w|c|s|]; try discriminate. destruct w as [es|t lf']; [discriminate|].
   destruct (file_panics (map erase lf')); [discriminate|].
   destruct (conv_errors t lf') as [|e0 er] eqn:Ec; [|discriminate].
-  intro H. injection H as <- <-. intro Hnl.
+  intro H. injection H as <- <-.
   assert (Hn : file_nerr (map erase lf') = 0).
   { rewrite <- (conv_errors_length t lf'), Ec. reflexivity. }
-  split; [|exact Hn]. destruct (file_total_links _ Hnl) as [Hnp Hnle].
+  split; [|exact Hn]. destruct (file_total_links_all (map erase lf')) as [Hnp Hnle].
   unfold file_verdict in *. destruct (file_panics (map erase lf')); [contradiction|].
   rewrite Hn in *. cbn [Nat.ltb Nat.leb] in *.
   destruct (links_d (file_state FMain (map erase lf')) && links_d (file_state FService (map erase lf')) && links_d (file_state FTopic (map erase lf')));
@@ -419,38 +402,26 @@ Definition front_end_statement (walk : list stmt -> outcome walk_out) : Prop :=
     | FEConverted v _ => v = VOk
     end.
 
-(* what is proved: it holds for EVERY walker that returns and respects the position contract, on files
-   without list requests.  Missing for the real compiler: that the real walker returns (never panics / hangs)
-   and respects the contract — not modelled; explored by the crash stream, tied by the CFrontFile /
-   CFrontErrs correspondence and the reviewed census — and list requests (recorded finding) *)
+(* what is proved: it holds for EVERY walker that returns and respects the position contract.
+   Missing for the real compiler: that the real walker returns (never panics / hangs) and respects the
+   contract — not modelled; explored by the crash stream, tied by the CFrontFile / CFrontErrs correspondence
+   and the reviewed census *)
 Theorem front_end_statement_partial : forall walk,
-  walker_returns walk -> walker_contract walk ->
-  (forall body t lf, walk body = Ok (WalkFile t lf) -> no_list_requests (map erase lf)) ->
-  front_end_statement walk.
+  walker_returns walk -> walker_contract walk -> front_end_statement walk.
 Proof.
-  intros walk Hret Hc Hnl ff input.
-  destruct (front_end_never_panics walk ff input Hret Hnl) as [out Hout]. exists out. split; [exact Hout|].
+  intros walk Hret Hc ff input.
+  destruct (front_end_total walk ff input Hret) as [out Hout]. exists out. split; [exact Hout|].
   destruct out as [st es|v lf].
   - split; [exact (proj1 (front_end_errors_positioned walk ff input st es Hc Hout))|].
     exact (front_end_errors_inside_bytes walk ff input st es Hc Hout).
-  - assert (Hl : no_list_requests (map erase lf)).
-    { revert Hout. unfold front_end.
-      destruct (parse_file input ff) as [p|c|s|]; try discriminate.
-      destruct (pdiags p); [|discriminate]. destruct (ptree p) as [body|]; [|discriminate].
-      destruct (walk body) as [w|c|s|] eqn:Hw; try discriminate. destruct w as [es|t lf']; [discriminate|].
-      destruct (file_panics (map erase lf')); [discriminate|].
-      destruct (conv_errors t lf'); [|discriminate]. intro H. injection H as _ <-. exact (Hnl body t lf' Hw). }
-    exact (proj1 (front_end_descriptors walk ff input v lf Hout Hl)).
+  - exact (proj1 (front_end_descriptors walk ff input v lf Hout)).
 Qed.
 
-(* with a list request the converter panics: the statement fails for a walker that hands one on *)
+(* a method with a list request is reported with a position (it panicked before fix 985f10a): the converter
+   records one error on the method's node *)
 Definition listreq_walk (body : list stmt) : outcome walk_out :=
   Ok (WalkFile (Loc span0 []) [LService ["elements"; "0"; "service"] false
         [(mkMethod true HGet false true false true, ["elements"; "0"; "service"; "methods"; "0"; "request"])]]).
-Lemma front_end_statement_refuted_listreq :
-  walker_returns listreq_walk /\ walker_contract listreq_walk /\ ~ front_end_statement listreq_walk.
-Proof.
-  split; [intro body; eexists; reflexivity|]. split.
-  - intros body w H. injection H as <-. cbn [walk_out_ok spans forallb]. rewrite span0_from. reflexivity.
-  - intro H. destruct (H true []) as [out [Ho _]]. vm_compute in Ho. discriminate.
-Qed.
+Lemma listreq_is_a_positioned_error : front_end listreq_walk true [] = Ok (FEErrors SConvert [span0]).
+Proof. vm_compute. reflexivity. Qed.
+
